@@ -26,9 +26,13 @@ inductive Kind | vault | lend | external
 
 inductive Acct
   | bidder (n : Nat) | auction | collector | owner | keeper | initiator | reserve | pool | vaultMod
+  | lendres      -- the lend module account (lend reserve)
+  | poolIn       -- the pool the collateral was lent to, when it is not the debt pool (cross-pool borrow)
+  | esm          -- the emergency-shutdown module account (first-generation wind-down)
   deriving DecidableEq, Repr, Inhabited
 
 inductive Denom | coll | debt
+  | transit      -- the bridge asset of a cross-pool borrow
   deriving DecidableEq, Repr, Inhabited
 
 /-! ### bank: association list, first match wins, default 0 -/
@@ -74,6 +78,10 @@ structure Env where
   premium : Dec := 0            -- DutchAuctionParam.Premium
   discount : Dec := 0           -- DutchAuctionParam.Discount
   cmst : Bool := false          -- LockedVault.IsDebtCmst
+  -- lend close (liquidate.go:721-813), values the lend module holds at close time (external, printed by the harness):
+  lendPen : Int := 0            -- ⌊borrow.AmountOut · LiquidationPenalty(collateral asset)⌋, sent pool → lend reserve
+  lendInt : Int := 0            -- ⌊BorrowInterestTracker.ReservePoolInterest⌋, sent pool → lend reserve
+  bridged : Int := 0            -- BorrowAsset.BridgedAssetAmount, returned debt pool → collateral's pool (cross-pool borrow)
   deriving Repr, Inhabited
 
 structure Auc where
@@ -222,9 +230,22 @@ def distribute (e : Env) (s : St) : Except Unit St :=
     | .error _ => .error ()
     | .ok b => .ok { s with bank := b, extFees := s.extFees + pen, booked := s.booked + pen }
   | .lend =>
-    match send s.bank .auction .pool .debt e.target with           -- MsgCloseDutchAuctionForBorrow: whole target to the pool
+    -- MsgCloseDutchAuctionForBorrow (liquidate.go:721-813): the whole target goes to the debt pool; from there the liquidation
+    -- penalty and the reserve's share of the interest go to the lend reserve (`UpdateReserveBalances`), and the bridge asset of
+    -- a cross-pool borrow goes back to the pool the collateral was lent to.  (cTokens minted for the lenders' share of the
+    -- interest are another denomination and are not tracked.)
+    match send s.bank .auction .pool .debt e.target with
     | .error _ => .error ()
-    | .ok b => .ok { s with bank := b }
+    | .ok b1 =>
+    match send b1 .pool .lendres .debt e.lendPen with
+    | .error _ => .error ()
+    | .ok b2 =>
+    match sendPos b2 .pool .lendres .debt e.lendInt with
+    | .error _ => .error ()
+    | .ok b3 =>
+    match sendPos b3 .pool .poolIn .transit e.bridged with
+    | .error _ => .error ()
+    | .ok b4 => .ok { s with bank := b4 }
 
 def apply (e : Env) (s : St) (a : Auc) (who : Nat) (p : Plan) (auto : Bool) : Except Unit St :=
   if s.auc.isNone then .error () else                               -- ErrorInGettingLockedVault (deleted with the auction)
